@@ -95,7 +95,12 @@ def cache_sizes() -> int:
 
 
 # --------------------------------------------------------------------------
+_ARMED = False
+
+
 def _alarm(signum, frame):
+    if not _ARMED:  # late tick while the case is already being wound up
+        return
     # an exception raised inside a gc / finaliser hook is swallowed by the interpreter: wait for the next tick
     f = frame
     while f is not None:
@@ -212,10 +217,15 @@ def guarded(acc: Acc, kind: str, case, fn, timeout_s: float, isolate: bool = Tru
     exceptions that passed through dep_logic = violation, others = harness error."""
     if isolate:
         reset_caches()
+    global _ARMED
     signal.signal(signal.SIGALRM, _alarm)
+    _ARMED = True
     signal.setitimer(signal.ITIMER_REAL, timeout_s, 0.05)  # re-fires: a CaseTimeout swallowed by a gc/finaliser hook must not disarm the cap
     try:
-        return fn(case)
+        try:
+            return fn(case)
+        finally:
+            _ARMED = False
     except CaseTimeout:
         acc.timeouts += 1
         return None
